@@ -208,7 +208,10 @@ def run_case(case, ctx):
             ok = len(got) == len(exp) and all(veq(g, e) for g, e in zip(got, exp)) and (pos is None or pos == keep)
             if ok and isinstance(x, pd.DataFrame):
                 ok = list(res.columns) == list(x.columns)
-        ctx.check('fill_model', ok, lambda: 'df_fillna(%s %r, method=%r, limit=%r) = %s %r\nmodel %r rows %r' % (case['kind'], case['cols'], method, limit, st, res if st != 'ok' else got, exp, keep))
+        if not case.get('diff_only'):      # (a constant with a finite limit on an array: which NaNs the limit reaches is not modelled here, only 'array = values of the pandas result' and 'non-NaN cells never change' are checked)
+            ctx.check('fill_model', ok, lambda: 'df_fillna(%s %r, method=%r, limit=%r) = %s %r\nmodel %r rows %r' % (case['kind'], case['cols'], method, limit, st, res if st != 'ok' else got, exp, keep))
+        else:
+            ctx.cls('array_constant_with_limit')
         if st == 'ok' and got is not None and len(got) == len(cols):
             # non-NaN cells never change (on the rows that survive)
             okc = True
@@ -286,6 +289,9 @@ def gen_random(rng):
     if any(isinstance(m, float) for m in (method if isinstance(method, list) else [method])) and not (isinstance(method, list) and method in ([0.0, 'ffill'], [0.0, 'bfill'], [7.5, 'ffill', 'bfill']) and kind in ('series', 'arr1')):
         limit = None
     case = {'kind': kind, 'cols': cols, 'method': method, 'limit': limit, 'positional': rng.random() < 0.2}
+    if kind in ('arr1', 'arr2') and not isinstance(method, list) and isinstance(method, float) and rng.random() < 0.5:
+        case['limit'] = rng.choice([1, 2])
+        case['diff_only'] = True
     if intidx is not None:
         case['intidx'] = intidx
     if kind in ('arr1', 'arr2') and rng.random() < 0.3:
